@@ -106,3 +106,64 @@ def set_poison(kind):
 
 def poison_count():
     return _POISON["n"]
+
+
+# ---------------------------------------------------------------------------
+# process-global mutable state of the library: every simulated run starts in a "fresh process"
+
+_GLOBALS = None
+
+
+def _mutable(x):
+    return isinstance(x, (list, dict, set, bytearray))
+
+
+def snapshot_globals():
+    """Remember the import-time value of every mutable default argument and mutable class /
+    module attribute in basictdf, so that reset_globals() can put them back *in place*."""
+    global _GLOBALS
+    import copy
+    import inspect
+    import sys
+    snap = []
+    for name, mod in sorted(sys.modules.items()):
+        if not (name == "basictdf" or name.startswith("basictdf.")) or mod is None:
+            continue
+        holders = [mod]
+        for _n, obj in sorted(vars(mod).items()):
+            if inspect.isclass(obj) and getattr(obj, "__module__", "").startswith("basictdf"):
+                holders.append(obj)
+        for h in holders:
+            for an, av in sorted(vars(h).items(), key=lambda kv: kv[0]):
+                if an.startswith("__") and an.endswith("__") and not callable(av):
+                    continue
+                if _mutable(av):
+                    snap.append((av, copy.deepcopy(av)))
+                fn = av.__func__ if isinstance(av, (staticmethod, classmethod)) else av
+                if isinstance(fn, property):
+                    fns = [f for f in (fn.fget, fn.fset) if f is not None]
+                else:
+                    fns = [fn]
+                for f in fns:
+                    f = inspect.unwrap(f) if callable(f) else f
+                    for d in (getattr(f, "__defaults__", None) or ()):
+                        if _mutable(d):
+                            snap.append((d, copy.deepcopy(d)))
+                    for d in (getattr(f, "__kwdefaults__", None) or {}).values():
+                        if _mutable(d):
+                            snap.append((d, copy.deepcopy(d)))
+    _GLOBALS = snap
+    return len(snap)
+
+
+def reset_globals():
+    if _GLOBALS is None:
+        snapshot_globals()
+    for live, saved in _GLOBALS:
+        if isinstance(live, list):
+            live[:] = saved
+        elif isinstance(live, (dict, set)):
+            live.clear()
+            live.update(saved)
+        elif isinstance(live, bytearray):
+            live[:] = saved
